@@ -52,3 +52,10 @@ for (lo, hi) in ((1, 8), (9, 16), (17, 32), (33, 48)):
                 unwind=49, timeout=1200, expect_canaries=2, functions=['opus_packet_parse_impl'], mem_gb=20,
                 defines=['-DVERIF_PARSE_CASE(data,len,sd)=' + _v, '-DVERIF_PARSE_LC_SIMPLE'] + (['-DVERIF_PARSE_LC_PAD'] if pad else []),
                 what='H style, CBR code 3, count in %d..%d, pad=%d, self_delimited=%d; all loops under contract, len unbounded' % (lo, hi, pad, sd)))
+
+# ---- class B: acceptance IFF RFC 6716 (independent transcription in spec/rfc6716_framing.h), bounded len ----
+for _code in range(4):
+    GROUPS.append(dict(name='iff_rfc_code%d' % _code, cls='B', tu='C06_iff_rfc.c', entry='h_iff_rfc', dfcc=False, unwind=10, canary='real',
+        defines=['-DVERIF_LEN_MAX=8', '-DVERIF_IFF_CASE(d,len,sd)=(((d)[0]&3)==%d)' % _code], expect_canaries=2, timeout=900,
+        functions=['opus_packet_parse_impl', 'parse_size', 'opus_packet_get_samples_per_frame'], bounds='len <= 8 bytes, all bytes symbolic, both framings',
+        what='parser accepts IFF the RFC transcription accepts, identical frames/padding/consumed length; TOC code %d' % _code))
